@@ -89,7 +89,15 @@ def m_lazyf(tier):
     # reduced lazy model for fault enumeration (every clone invocation made to panic)
     return dict(m_lazy(tier), MaxLazyDepth=1, MaxLazyN=2, alpha=["push", "pop", "lazy", "drain", "keep"])
 
+def m_place(tier):
+    return dict(alpha=["place", "push"], MaxLen=1, MaxLenB=0, MaxExt=0, srcs=["typed"], sinks=["drop"], OneHandle=True)
+def m_amort(tier):
+    # growth through repeated push is amortised: one run of PushManyN pushes, then ordinary operations on the long vector
+    return dict(alpha=["push_many", "clear"], MaxLen=0, MaxLenB=0, MaxExt=0, srcs=["raw"], sinks=["drop"], OneHandle=True,
+                PushManyN=2048 if tier == "quick" else 60000, invariants=["HandleInv"])
+
 MODELS = {
+    "place": m_place, "amort": m_amort,
     "lazyf": m_lazyf,
     "liar": m_liar,
     "raw": m_raw, "rawempty": m_rawempty, "wrong": m_wrong, "swap": m_swap, "spare": m_spare, "sparefixed": m_sparefixed,
@@ -159,8 +167,10 @@ def c06(tier):
 
 def c10(tier):
     if tier == "quick":
-        return [dict(model="cap", configs=cfgs(["heap8d", "heap0d", "fence8d", "heap1n"], (R,)) + cfgs(["heap3n"], (D,)))]
-    return [dict(model="cap", configs=cfgs(["heap8d", "heap0d", "heap0n", "heap3n", "heap160", "fence8d", "fence3n", "fence0d", "fence160"], (R, D)))]
+        return [dict(model="cap", configs=cfgs(["heap8d", "heap0d", "fence8d", "heap1n"], (R,)) + cfgs(["heap3n"], (D,))),
+                dict(model="amort", shards=1, configs=cfgs(["heap8n", "fence8d", "heap0d"], (R,)))]
+    return [dict(model="cap", configs=cfgs(["heap8d", "heap0d", "heap0n", "heap3n", "heap160", "fence8d", "fence3n", "fence0d", "fence160"], (R, D))),
+            dict(model="amort", shards=1, configs=cfgs(["heap8n", "fence8d", "heap0d", "heap160"], (R, D)))]
 def c11(tier):
     if tier == "quick":
         return [dict(model="fixed", configs=cfgs(["stack8x3p", "stackn3"], (R,))), dict(model="elem", configs=cfgs(["stack24x3"], (R,))),
@@ -207,10 +217,12 @@ def c04(tier):
 def c12(tier):
     if tier == "quick":
         return [dict(model="spare", configs=cfgs(["heap8d", "heap3n", "fence160", "heap0d"], (R,))), dict(model="sparefixed", configs=cfgs(["stack24x3", "stackn3"], (R,))),
-                dict(model="elem", configs=cfgs(["heap160a32", "heap64n", "heap1n"], (R,)))]
+                dict(model="elem", configs=cfgs(["heap160a32", "heap64n", "heap1n"], (R,))),
+                dict(model="place", shards=1, configs=cfgs(["heap32d", "heap64n", "stack24x3", "stackn3", "stack16x4", "stack32x4", "empty8d", "fence160"], (R,)))]
     return [dict(model="spare", configs=cfgs(["heap8d", "heap3n", "heap1n", "heap16d", "heap32d", "heap64n", "heap160a32", "fence160", "fence3n", "heap0d"], (R, D))),
             dict(model="sparefixed", configs=cfgs(["stack24x3", "stackn3", "stack8x3p"], (R, D))),
-            dict(model="elem", configs=cfgs(["heap160a32", "heap64n", "heap1n", "heap16d", "heap32d"], (R,)))]
+            dict(model="elem", configs=cfgs(["heap160a32", "heap64n", "heap1n", "heap16d", "heap32d"], (R,))),
+            dict(model="place", shards=1, configs=cfgs(["heap32d", "heap64n", "stack24x3", "stackn3", "stack16x4", "stack32x4", "stack64x2", "empty8d", "fence160"], (R, D)))]
 
 def c19(tier):
     NA = False
